@@ -131,6 +131,8 @@ class Encoder:
         last = None
         marks = {}  # task -> ret
         got = set()
+        route = {}
+        nsent = {}
         bend = {}
         closing_pool = False
         for e in self.run.events:
@@ -141,6 +143,8 @@ class Encoder:
                 marks[e["r"]] = self.ret(e)
             elif k == "Got":
                 got.add(e["r"])
+                route[e["r"]] = e.get("route", "ok")
+                nsent[e["r"]] = len(e.get("sent_on", []))
             elif k == "BodyEnd":
                 bend[e["r"]] = "full" if e.get("complete") else "partial"
             elif k == "Fault":
@@ -168,7 +172,7 @@ class Encoder:
             elif k == "Step":
                 last = self.obs(e["obs"])
                 t = e["task"]
-                evs.append({"e": "Q", "r": self.rid.get(t, 0), "ret": marks.pop(t, ""), "got": t in got, "bend": bend.pop(t, ""), "obs": last})
+                evs.append({"e": "Q", "r": self.rid.get(t, 0), "ret": marks.pop(t, ""), "got": t in got, "bend": bend.pop(t, ""), "route": route.pop(t, ""), "nsent": nsent.pop(t, 0), "obs": last})
                 got.discard(t)
             elif k == "End":
                 last = self.obs(e["obs"])
